@@ -4397,6 +4397,21 @@ CK_RV SoftHSM::AsymSignInit(CK_SESSION_HANDLE hSession, CK_MECHANISM_PTR pMechan
 			return CKR_MECHANISM_INVALID;
 	}
 
+	// Check that the key class and the key type fit the mechanism
+	if (key->getUnsignedLongValue(CKA_CLASS, CKO_VENDOR_DEFINED) != CKO_PRIVATE_KEY)
+		return CKR_KEY_TYPE_INCONSISTENT;
+	CK_KEY_TYPE mechKeyType = CKK_GOSTR3410;
+	if (isRSA) mechKeyType = CKK_RSA;
+	else if (isDSA) mechKeyType = CKK_DSA;
+#ifdef WITH_ECC
+	else if (isECDSA) mechKeyType = CKK_EC;
+#endif
+#ifdef WITH_EDDSA
+	else if (isEDDSA) mechKeyType = CKK_EC_EDWARDS;
+#endif
+	if (key->getUnsignedLongValue(CKA_KEY_TYPE, CKK_VENDOR_DEFINED) != mechKeyType)
+		return CKR_KEY_TYPE_INCONSISTENT;
+
 	AsymmetricAlgorithm* asymCrypto = NULL;
 	PrivateKey* privateKey = NULL;
 	if (isRSA)
@@ -5377,6 +5392,21 @@ CK_RV SoftHSM::AsymVerifyInit(CK_SESSION_HANDLE hSession, CK_MECHANISM_PTR pMech
 		default:
 			return CKR_MECHANISM_INVALID;
 	}
+
+	// Check that the key class and the key type fit the mechanism
+	if (key->getUnsignedLongValue(CKA_CLASS, CKO_VENDOR_DEFINED) != CKO_PUBLIC_KEY)
+		return CKR_KEY_TYPE_INCONSISTENT;
+	CK_KEY_TYPE mechKeyType = CKK_GOSTR3410;
+	if (isRSA) mechKeyType = CKK_RSA;
+	else if (isDSA) mechKeyType = CKK_DSA;
+#ifdef WITH_ECC
+	else if (isECDSA) mechKeyType = CKK_EC;
+#endif
+#ifdef WITH_EDDSA
+	else if (isEDDSA) mechKeyType = CKK_EC_EDWARDS;
+#endif
+	if (key->getUnsignedLongValue(CKA_KEY_TYPE, CKK_VENDOR_DEFINED) != mechKeyType)
+		return CKR_KEY_TYPE_INCONSISTENT;
 
 	AsymmetricAlgorithm* asymCrypto = NULL;
 	PublicKey* publicKey = NULL;
